@@ -107,6 +107,15 @@ class _Stmts(ast.NodeTransformer):
     list_attrs = frozenset()     # attributes of self known to be python lists (set in __init__)
 
     def visit_AugAssign(self, node):
+        # N9 for augmented assignments:  s += A if c else B  ->  if c: s += A  else: s += B
+        if isinstance(node.value, ast.IfExp) and isinstance(node.target, ast.Name):
+            r = self._split_ifexp(node, node.value, lambda v: ast.copy_location(
+                ast.AugAssign(target=copy.deepcopy(node.target), op=node.op, value=v), node))
+            if r is not None:
+                return r
+        return self._aug_list(node)
+
+    def _aug_list(self, node):
         """N12  lst += [x]  ->  lst.append(x) ;  lst += [x, y]  ->  lst.extend([x, y])   (python lists only)"""
         t = node.target
         is_list = (isinstance(t, ast.Name) and t.id in self.list_names) or \
